@@ -26,7 +26,7 @@ def assigned_names(stmts):
 
 
 class LoopSpec:
-    def __init__(self, name, inv, variant=None, havoc=None, modifies=None, ghost=None, params=None, step=None):
+    def __init__(self, name, inv, variant=None, havoc=None, modifies=None, ghost=None, params=None, step=None, item=None, ghost_update=None):
         self.name = name
         self.inv = inv  # qualname of the invariant function (spec module); called with the named locals
         self.variant = variant  # qualname of variant function or None (for-range loops have a built-in variant)
@@ -34,6 +34,8 @@ class LoopSpec:
         self.modifies = modifies  # callable(I, st) -> set of oids the body may change
         self.ghost = ghost  # callable(I, st) -> dict of entry-time values (old state)
         self.params = params
+        self.item = item  # callable(I, st) -> the arbitrary element of a `for x in <list>` loop (list iteration cut)
+        self.ghost_update = ghost_update  # callable(I, st) -> None: updates the ghost dict g after the body
         self.step = step  # qualname: per-iteration postcondition evaluated after the body (may use g[...] set by havoc)
 
     # -------------------------------------------------------------- helpers
@@ -82,6 +84,8 @@ class LoopSpec:
         rng = None
         if is_for:
             it = stmt.iter
+            if self.item is not None:
+                return self.cut_list(I, stmt, st)
             if not (isinstance(it, ast.Call) and isinstance(it.func, ast.Name) and it.func.id == "range" and isinstance(stmt.target, ast.Name)):
                 raise Unsupported("loop contract on a for loop that is not `for x in range(...)`", stmt)
             res = I.eval_seq(it.args, st)
@@ -164,6 +168,61 @@ class LoopSpec:
                         else:
                             out.append((k3, v3, s3))
         return out
+
+
+def _cut_list(self, I, stmt, st):
+    """`for x in <list of unknown length>`: entry obligation, then ONE arbitrary iteration from an arbitrary state satisfying
+    the invariant with an arbitrary element (item callback), plus the exit path (invariant holds, any number of iterations done)."""
+    out = []
+    res = I.eval(stmt.iter, st)
+    if len(res) != 1 or res[0][0] != "val":
+        raise Unsupported("list loop: iterable forks", stmt)
+    st = res[0][2]
+    if self.ghost is not None:
+        st.env["g"] = I.alloc(st, HDict(self.ghost(I, st)))
+    for t, s in self._eval_bool(I, self.inv, st.fork()):
+        st.side.append((f"loop_inv_entry:{self.name}", list(s.pc), t))
+    names = assigned_names(stmt.body)
+    for n in names:
+        cur = st.env.get(n)
+        if n in st.env and (isinstance(cur, int) and not isinstance(cur, bool) or is_symint(cur)):
+            st.env[n] = I.fresh_int(n)
+    if self.havoc is not None:
+        self.havoc(I, st)
+    states = []
+    for t, s in self._eval_bool(I, self.inv, st):
+        for b, s2 in I.split(t, s):
+            if b:
+                states.append(s2)
+    for s in states:
+        # exit path: the loop is over (any number of iterations), the invariant holds
+        s_exit = s.fork()
+        out += I.exec_block(stmt.orelse, s_exit) if stmt.orelse else [("next", None, s_exit)]
+        # one arbitrary iteration
+        s2 = s
+        I.assign_target(stmt.target, self.item(I, s2), s2)
+        before = self._snapshot(I, s2)
+        fresh_from = next(I._oid)
+        allowed = self.modifies(I, s2) if self.modifies else set()
+        for k3, v3, s3 in I.exec_block(stmt.body, s2):
+            if k3 in ("next", "continue"):
+                self._frame_check(I, before, s3, allowed, fresh_from)
+                if self.step is not None:
+                    for t, s4 in self._eval_bool(I, self.step, s3.fork()):
+                        s3.side.append((f"loop_step:{self.name}", list(s4.pc), t))
+                if self.ghost_update is not None:
+                    self.ghost_update(I, s3)
+                for t, s4 in self._eval_bool(I, self.inv, s3.fork()):
+                    s3.side.append((f"loop_inv_preserved:{self.name}", list(s4.pc), t))
+                out.append(("exc", ExcVal("<loopend>"), s3))
+            elif k3 == "break":
+                out.append(("next", None, s3))
+            else:
+                out.append((k3, v3, s3))
+    return out
+
+
+LoopSpec.cut_list = _cut_list
 
 
 def _same(a, b):
